@@ -8,15 +8,15 @@ META = {
              'bust_cache x seeded completion order; oracle = independent sequential reference evaluator over the '
              'spec + pairwise equality of the returned dicts across configurations. A case is distinct by '
              '(DAG structure, requested list, configuration, schedule seed); non-trivial when the DAG has >= 1 '
-             'dependency edge and >= 2 tasks completed through the runner.'),
+             'dependency edge and >= 2 tasks completed through the runner. Separately, "twins": pairs of tasks of one type whose parameter trees differ in exactly one small way (scalar type, enum class with the same member name or the same short class name nested elsewhere, nesting, dict key, order); one of them is cached beforehand, then both are requested under serial/fork/spawn; the value of such a task is the harness-side typed identity of its own parameters, so receiving the sibling\'s result shows.'),
     'assumptions': [
         'task values are a pure function (vlab.body.combine) of type, name, parameter, dependency values, filtered context',
         'DAGs up to 12 tasks (16+ for the default worker count), nesting depth <= 3',
         'the sim runner exercises the coordinator only; real fork/spawn runs are gate-controlled or free-running samples',
     ],
     'tiers': {
-        'quick': {'shards': 16, 'budget_s': 40, 'n_spec_sim': 700, 'n_spec_real': 32},
-        'thorough': {'shards': 16, 'budget_s': 330, 'n_spec_sim': 16000, 'n_spec_real': 480},
+        'quick': {'shards': 16, 'budget_s': 40, 'n_spec_sim': 700, 'n_spec_real': 32, 'n_twins': 1200},
+        'thorough': {'shards': 16, 'budget_s': 330, 'n_spec_sim': 16000, 'n_spec_real': 480, 'n_twins': 20000},
     },
 }
 
@@ -109,11 +109,95 @@ def one_spec(rep, rng, real):
                           f'{results[0]} vs {results[1]}', {'scenarios': configs})
 
 
+def twin_case(rep, rng, fixed=None):
+    """Two tasks of one type whose parameters differ in exactly one small way (scalar type, enum class with the same
+    member or short name, list vs nesting, dict key ...); the first one's result is cached beforehand, then the
+    second (and the first) are requested: each must get ITS OWN value (the value is the typed identity of the
+    task's parameters), whatever was cached and whichever backend runs it."""
+    import json
+    import os
+    import shutil
+    import tempfile
+    import labtech
+    from vlab import engine, valgen
+    from vlab.props.c07 import build
+    M, C = 'vlab.tasks_core', 'VT'
+    if fixed is None:
+        pd = valgen.gen_value(rng, rng.choice([1, 2, 3]), tasks=False)
+        if rng.random() < 0.3:
+            # enum twins: the same tree with, at one position, members of two enum classes that share the member
+            # name, the class name (another module) or the short class name (nested in different classes)
+            import random
+            e = rng.choice(valgen.ENUMS)
+            opts = [x for x in valgen.ENUMS if x != e and (x[2] == e[2] or x[1].split('.')[-1] == e[1].split('.')[-1])]
+            if not opts:
+                return
+            e2 = rng.choice(opts)
+            sd = rng.randrange(1 << 30)
+            base = pd if any(k in pd for k in ('l', 't', 'd', 'fd')) else {'l': [pd]}
+            pd = valgen.plant(random.Random(sd), base, {'e': list(e)})
+            nm = ({'task': [M, C, valgen.plant(random.Random(sd), base, {'e': list(e2)}), {'s': None}]}, 'enum-twin')
+        else:
+            nm = valgen.near_miss(rng, {'task': [M, C, pd, {'s': None}]})
+        if nm is None or nm[0]['task'][:2] != [M, C]:
+            return
+        d2, kind = nm
+        case = {'a': [M, C, pd, {'s': None}], 'b': d2['task'], 'kind': kind,
+                'backend': rng.choice(['serial', 'serial', 'fork', 'fork', 'spawn']),
+                'precache': rng.choice(['a', 'a', 'b', None]), 'order': rng.choice(['ab', 'ba', 'b'])}
+    else:
+        case = fixed
+        kind = case['kind']
+    wit = {'twin': case}
+    try:
+        A, B = build(*case['a']), build(*case['b'])
+    except Exception:
+        return
+    if A == B:
+        rep.count('twins_python_equal_skipped')
+        return      # 1 / 1.0 / True: one task for Python, hence for labtech
+    engine.quiet_labtech()
+    d = tempfile.mkdtemp(prefix='vlab-c01-twin-')
+    try:
+        want = {id(A): ('twin', json.dumps(valgen.obj_ident(A))), id(B): ('twin', json.dumps(valgen.obj_ident(B)))}
+        if case['precache']:
+            t0 = build(*case[case['precache']])
+            labtech.Lab(storage=d, runner_backend='serial').run_tasks([t0], disable_progress=True, disable_top=True)
+        req = {'ab': [A, B], 'ba': [B, A], 'b': [B]}[case['order']]
+        lab = labtech.Lab(storage=d, runner_backend=case['backend'], max_workers=2)
+        try:
+            res = lab.run_tasks(req, disable_progress=True, disable_top=True)
+        except BaseException as ex:   # noqa
+            rep.violation(f'raised:{type(ex).__name__}', f'twins ({kind}): run_tasks raised {type(ex).__name__}: {ex}', wit)
+            return
+        finally:
+            if case['backend'] != 'serial':
+                engine.reap_children()
+        rep.count('twin_pairs')
+        rep.count('twin_' + kind)
+        rep.count('values_compared', len(req))
+        rep.case(['twin', json.dumps(case, sort_keys=True)], True)
+        if len(res) != len(req) or any(k is not t for k, t in zip(res, req)):
+            rep.violation('wrong-keys', f'twins ({kind}): result has {len(res)} keys for {len(req)} distinct requested tasks', wit)
+            return
+        for t in req:
+            got = res[t]
+            if tuple(got) != want[id(t)]:
+                rep.violation('wrong-value', f'twins ({kind}, {case["backend"]}, cached beforehand: {case["precache"]}): '
+                              f'{t!r} got the value {got}, its own is {want[id(t)]}'[:900], wit)
+                break
+    finally:
+        shutil.rmtree(d, ignore_errors=True)
+
+
 def run_shard(rep):
     from vlab.dagcommon import scenario_rng
     cfg = META['tiers'][rep.tier]
     rep.require('config_pairs_compared', 20 if rep.tier == 'quick' else 500)
     rep.require('runs_fork', 4)
+    rep.require('twin_pairs', 100)
+    for j in range(rep.shard, cfg.get('n_twins', 400), rep.nshards):
+        twin_case(rep, scenario_rng(rep.seed, 'C01twin', j))
     jobs = [('real', j) for j in range(cfg['n_spec_real'])] + [('sim', j) for j in range(cfg['n_spec_sim'])]
     for kind, j in jobs[rep.shard::rep.nshards]:
         if rep.expired():
@@ -126,6 +210,12 @@ def run_shard(rep):
 def replay(rep, wit):
     from vlab import engine
     w = wit['witness']
+    if 'twin' in w:
+        import random
+        rep.case('a', True)
+        rep.case('b', True)
+        twin_case(rep, random.Random(0), fixed=w['twin'])
+        return
     scns = w.get('scenarios') or [w['scenario']]
     outs = []
     for i, c in enumerate(scns):
